@@ -90,6 +90,12 @@ def oracle_with_model(lines, trace, mtrace):
     diag = [l.split() for l in mtrace if re.match(r"^L t=-?\d+ 8 ", l)]
     # model diagnostic at close: [sock, parked segments, bytes in flight]
     parked = any(int(d[4]) > 0 and int(d[5]) == 0 for d in diag)
+    # ... and the model's final state (printed by the driver when the run has ended): a socket that
+    # still holds segments for retransmission while none of its segments is in flight
+    for l in mtrace:
+        m = re.match(r"^Z tcp \d+ outgoing=(\d+) inflight=(-?\d+) ", l)
+        if m and int(m.group(1)) > 0 and int(m.group(2)) == 0:
+            parked = True
     plain = [l for l in mtrace if not l.startswith("Z ") and not re.match(r"^L t=-?\d+ 8 ", l)]
     for sig, msg in fails:
         if sig == "c06/stall" and parked and plain == trace:
